@@ -70,7 +70,7 @@ def run(prop, tier, replay):
         if replay:
             rp = json.load(open(replay))
             path = os.path.join(work, "replay.ndjson")
-            vf.run([bins["rec-heur"]] + rp["recorder_args"] + (["-corpus", CORPUS] if "containers" not in rp["recorder_args"] and "grav" not in rp["recorder_args"] else []) + ["-out", path], timeout=1800)
+            vf.run_recorder([bins["rec-heur"]] + rp["recorder_args"] + (["-corpus", CORPUS] if "containers" not in rp["recorder_args"] and "grav" not in rp["recorder_args"] else []) + ["-out", path], timeout=1800)
             _, mm, _ = tc.validate_trace(work, "Containers" if "containers" in rp["recorder_args"] else "HeurTrace", path, timeout=3000)
             bad = [m for m in mm if m["rule"].startswith((prop + "/", "PANIC/"))]
             for m in bad[:3]:
@@ -91,7 +91,7 @@ def run(prop, tier, replay):
                 args = ["-mode", mode, "-n", str(nev), "-seed", str(vf.seed() * 15485863 + k)]
 
                 def record(path, args=args):
-                    vf.run([bins["rec-heur"]] + args + ["-corpus", CORPUS, "-out", path], timeout=3000)
+                    vf.run_recorder([bins["rec-heur"]] + args + ["-corpus", CORPUS, "-out", path], timeout=3000)
                 jobs.append(dict(name="%s-%s-%d" % (prop, mode, i), record=record, args=args))
         if prop == "C16":
             gsh = 4
@@ -99,7 +99,7 @@ def run(prop, tier, replay):
                 args = ["-mode", "grav", "-shard", str(i), "-nshards", str(gsh)] + (["-full"] if tier == "thorough" else [])
 
                 def record(path, args=args):
-                    vf.run([bins["rec-heur"]] + args + ["-out", path], timeout=3000)
+                    vf.run_recorder([bins["rec-heur"]] + args + ["-out", path], timeout=3000)
                 jobs.append(dict(name="C16-grav-%d" % i, record=record, args=args))
         res = tc.run_shards(work, "HeurTrace", jobs, timeout=6000)
         if prop == "C16":
@@ -109,7 +109,7 @@ def run(prop, tier, replay):
                 args = ["-mode", "containers", "-n", str(8000 if tier == "quick" else 80000), "-seed", str(vf.seed() * 9973 + i)]
 
                 def recordc(path, args=args):
-                    vf.run([bins["rec-heur"]] + args + ["-out", path], timeout=3000)
+                    vf.run_recorder([bins["rec-heur"]] + args + ["-out", path], timeout=3000)
                 cjobs.append(dict(name="C16-containers-%d" % i, record=recordc, args=args))
             cres = tc.run_shards(work, "Containers", cjobs, timeout=3000)
             res.mm += cres.mm
